@@ -126,7 +126,7 @@ def _url(rng):
 
 
 def gen_cases(rng, tier):
-    n = {"quick": 4000, "thorough": 60000, "search": 4000}[tier]
+    n = {"quick": 4000, "thorough": 200000, "search": 4000}[tier]
     _auth()     # import tornado.auth in the parent, before the workers are forked
     if tier in ("quick", "thorough"):
         # every scheme × port × path class once, with a fixed parameter set
